@@ -343,7 +343,10 @@ def e2e_history(R):
             continue
         ops = ["set", "bump", "f", "get"]
         seqs = [s for n in (2, 3, 4) for s in itertools.product(ops, repeat=n) if "bump" in s or "f" in s]
-        seqs = seqs[::3]
+        if R.tier != "thorough":
+            seqs = seqs[::3]
+        else:                     # thorough tier: every history of up to 4 operations, and every 7th of length 5
+            seqs += [s for s in itertools.product(ops, repeat=5) if "bump" in s or "f" in s][::7]
         bad = []
 
         def run(ctx, r=r, seqs=seqs):
